@@ -252,8 +252,8 @@ func distinctRich(sig, n, base int, own bool) any {
 			sp.SetParentSpanID(pcommon.SpanID(id8(i + 1000000)))
 			sp.TraceState().FromRaw(fmt.Sprintf("k=%d", i))
 			sp.Status().SetMessage(fmt.Sprintf("msg-%d", i))
-			sp.Status().SetCode(ptrace.StatusCode(i % 3))
-			sp.SetKind(ptrace.SpanKind(i % 6))
+			sp.Status().SetCode(ptrace.StatusCode(i)) // open enums: any int32 travels (dictionary-encoded 32-bit columns)
+			sp.SetKind(ptrace.SpanKind(i))
 			sp.SetStartTimestamp(pcommon.Timestamp(1_700_000_000_000_000_000 + uint64(i)*1000))
 			sp.SetEndTimestamp(pcommon.Timestamp(1_700_000_000_000_000_000 + uint64(i)*1000 + uint64(i)))
 			attrs(sp.Attributes(), "span", i)
@@ -296,7 +296,7 @@ func distinctRich(sig, n, base int, own bool) any {
 			lr.SetEventName(fmt.Sprintf("event-%d", i))
 			lr.SetTimestamp(pcommon.Timestamp(1_700_000_000_000_000_000 + uint64(i)*1000))
 			lr.SetObservedTimestamp(pcommon.Timestamp(1_700_000_000_000_000_000 + uint64(i)*3000))
-			lr.SetSeverityNumber(plog.SeverityNumber(1 + i%24))
+			lr.SetSeverityNumber(plog.SeverityNumber(1 + i))
 			attrs(lr.Attributes(), "log", i)
 		}
 		return ld
@@ -486,6 +486,79 @@ func boundaryCases(tier string) []boundaryCase {
 			return []any{td, smallTraces()}
 		}, Expect: []string{"ok", "ok"}},
 	}
+	// identical resources and scopes that come back after different ones (A, B, A), under every span ordering (with no sorting at
+	// all the encoder meets them in input order)
+	abaTraces := func() any {
+		td := ptrace.NewTraces()
+		for i, name := range []string{"A", "B", "A", "C", "B"} {
+			rs := td.ResourceSpans().AppendEmpty()
+			rs.Resource().Attributes().PutStr("service.name", name)
+			for j, sc := range []string{"x", "y", "x"} {
+				ss := rs.ScopeSpans().AppendEmpty()
+				ss.Scope().SetName(sc)
+				sp := ss.Spans().AppendEmpty()
+				sp.SetName(fmt.Sprintf("s-%d-%d", i, j))
+				sp.Attributes().PutInt("i", int64(i))
+			}
+		}
+		return td
+	}
+	for _, variant := range sortedKeysOf(cfgpkg.OrderSpanByVariants) {
+		variant := variant
+		cs = append(cs, boundaryCase{Name: "traces: resources A, B, A, C, B with scopes x, y, x under OrderSpanBy(" + variant + ")",
+			Options: []cfgpkg.Option{cfgpkg.WithOrderSpanBy(cfgpkg.OrderSpanByVariants[variant])},
+			Batches: func() []any { return []any{abaTraces(), abaTraces()} }, Expect: []string{"ok", "ok"}})
+	}
+	cs = append(cs,
+		boundaryCase{Name: "logs: resources A, B, A with scopes x, y, x", Batches: func() []any {
+			ld := plog.NewLogs()
+			for _, name := range []string{"A", "B", "A"} {
+				rl := ld.ResourceLogs().AppendEmpty()
+				rl.Resource().Attributes().PutStr("service.name", name)
+				for _, sc := range []string{"x", "y", "x"} {
+					sl := rl.ScopeLogs().AppendEmpty()
+					sl.Scope().SetName(sc)
+					sl.LogRecords().AppendEmpty().Body().SetStr(name + sc)
+				}
+			}
+			return []any{ld}
+		}, Expect: []string{"ok"}},
+		boundaryCase{Name: "metrics: resources A, B, A with scopes x, y, x", Batches: func() []any {
+			md := pmetric.NewMetrics()
+			for _, name := range []string{"A", "B", "A"} {
+				rm := md.ResourceMetrics().AppendEmpty()
+				rm.Resource().Attributes().PutStr("service.name", name)
+				for _, sc := range []string{"x", "y", "x"} {
+					sm := rm.ScopeMetrics().AppendEmpty()
+					sm.Scope().SetName(sc)
+					m := sm.Metrics().AppendEmpty()
+					m.SetName(name + sc)
+					m.SetEmptyGauge().DataPoints().AppendEmpty().SetIntValue(1)
+				}
+			}
+			return []any{md}
+		}, Expect: []string{"ok"}})
+	// close to the id width, with schema updates on the way (every retry of the record builder must start from a clean slate)
+	cs = append(cs,
+		boundaryCase{Name: "60000 log records with attributes as the first batch of a stream", Batches: func() []any { return []any{manyLogs(60000), manyLogs(3)} }, Expect: []string{"ok", "ok"}},
+		boundaryCase{Name: "a small logs batch, then 60000 records that use a new column", Batches: func() []any {
+			big := manyLogs(60000)
+			big.ResourceLogs().At(0).ScopeLogs().At(0).LogRecords().At(0).SetSeverityText("first use of this column")
+			return []any{manyLogs(3), big}
+		}, Expect: []string{"ok", "ok"}},
+		boundaryCase{Name: "60000 metrics with a data point attribute as the first batch", Batches: func() []any {
+			md := manyMetrics(60000)
+			ms := md.ResourceMetrics().At(0).ScopeMetrics().At(0).Metrics()
+			for i := 0; i < ms.Len(); i++ {
+				ms.At(i).Gauge().DataPoints().At(0).Attributes().PutInt("i", int64(i%7))
+			}
+			return []any{md, manyMetrics(3)}
+		}, Expect: []string{"ok", "ok"}},
+		boundaryCase{Name: "a small traces batch, then 60000 attribute-bearing spans with a new column", Batches: func() []any {
+			big := manySpans(60000, true, 1)
+			big.ResourceSpans().At(0).ScopeSpans().At(0).Spans().At(0).Status().SetMessage("first use of this column")
+			return []any{smallTraces(), big}
+		}, Expect: []string{"ok", "ok"}})
 	for sig, name := range []string{"traces", "logs", "metrics"} {
 		sig := sig
 		cs = append(cs,
